@@ -127,6 +127,8 @@ def showRtcps (ps : List Rtcp) : String := showList (ps.map showRtcp) " "
 def bufOp? (s : String) : Option BufOp :=
   match s.splitOn ":" with
   | ["s", q, t] => do some (.push (← u16? q) (← nat? t))
+  | ["x", a, q, t] => do some (.sent (← u32? a) (← u16? q) (← nat? t))
+  | ["r", a] => do some (.setRtx (← u32? a))
   | ["q", t, qs] => do some (.query (← nat? t) (← mapM? u16? (listOf qs ";")))
   | _ => none
 
@@ -176,7 +178,9 @@ def handle (stream : String) (args : List String) : String :=
   | "rtp_marshal", [t] =>
     match pkt? t with
     | none => "bad-pkt"
-    | some p => showRes hex (marshalPacket p)
+    | some p =>
+      -- `marshal_into` skips `validate` and always produces the bytes
+      s!"{showRes hex (marshalPacket p)} into:{hex (writeHeader p.hdr (p.padLen != 0) ++ p.payload ++ List.replicate p.padLen.toNat p.padLen)}"
   | "ext_get", [e, id] =>
     match ext? e, u8? id with
     | some ex, some i =>
@@ -214,6 +218,18 @@ def handle (stream : String) (args : List String) : String :=
     match pkt? t, u32? ssrc, u8? pt with
     | some p, some s, some y => (match unwrapRtx p s y with | none => "none" | some q => "some " ++ showPkt q)
     | _, _, _ => "bad-args"
+  | "is_rtcp", [hx] =>
+    match unhex hx with
+    | none => "bad-hex"
+    | some bs => b01 (isRtcp bs)
+  | "osn", [hx] =>
+    match unhex hx with
+    | none => "bad-hex"
+    | some bs => (match decodeOsn bs with | none => "none" | some v => s!"some:{v.toNat}:{hex (encodeOsn v)}")
+  | "rtx_alloc", [us] =>
+    match mapM? u8? (listOf us ";") with
+    | none => "bad-args"
+    | some used => (match allocRtxPt used with | none => "none" | some v => s!"some:{v.toNat}")
   | "nackbuf", mx :: ops =>
     match nat? mx, mapM? bufOp? ops with
     | some m, some os => " ".intercalate ((bufRun (NackBuf.new m) os).map showBufOut)
